@@ -12,6 +12,6 @@ for u in mod.UNITS:
     print('==', r['unit'], 'paths', r['paths'], 'wall', r['wall_s'], 'solver', r['solver_s'], 'err', r['error'])
     if r.get('trace') and r['error']: print(r['trace'])
     for o in r['obligations']:
-        print('  [%s] %s %s (%d cases)' % (o['verdict'], o['kind'], o['name'], o['cases']))
+        print('  [%s] %s %s (%d cases) %.1fs' % (o['verdict'], o['kind'], o['name'], o['cases'], o['solver_s']))
         if o['verdict'] != 'proved':
             print('      ', json.dumps(o['witness'])[:1500])
